@@ -1459,3 +1459,8 @@ Proof.
   destruct Hin as [<- | Hin]; [exact E1|].
   rewrite <- E1. apply (IH st' o a Hin). intros c0 Hc0. apply Hpa. right. exact Hc0.
 Qed.
+
+(* the reserved-prefix test is a prefix test with the constant list of /repo *)
+Lemma reserved_is_prefix : forall k,
+  reserved k = existsb (fun p => has_prefix p k) gen_reserved_annotation_prefixes.
+Proof. reflexivity. Qed.
